@@ -80,7 +80,7 @@ fn run(rng: &mut Rng, idx: u64, tier: Tier) -> CaseOut {
     let mut nopts = NetOpts::default();
     nopts.max_vars = if tier == Tier::Quick { 3 } else { 4 };
     let mut fopts = FormOpts::plain();
-    fopts.bin_ops = vec![Bin::And, Bin::Or, Bin::Imp, Bin::Iff, Bin::EU, Bin::AU, Bin::And];
+    fopts.bin_ops = vec![Bin::And, Bin::Or, Bin::Imp, Bin::Iff, Bin::EU, Bin::AU, Bin::And, Bin::EW, Bin::AW, Bin::Xor];
     fopts.dup_pct = 35;
     fopts.pattern_pct = 10;
     fopts.max_quant_depth = rng.range(1, 3);
